@@ -70,11 +70,22 @@ pub struct WCase {
     pub variant: &'static str,
     /// the output embeds random bytes (Avro OCF sync marker): compared modulo those bytes
     pub random_sync: bool,
+    /// gets the full index budget in the quick tier
+    pub primary: bool,
+    /// the sink interface has whole-buffer writes only (AsyncFileWriter): no short / interrupted / zero faults
+    pub whole_writes: bool,
+    /// which reader case (format name in rsess) reads this output back, and the rows written
+    pub read_back: Option<(&'static str, Vec<String>)>,
     pub run: Run,
 }
 
 fn case(fmt: &'static str, variant: &'static str, run: Run) -> WCase {
-    WCase { fmt, variant, random_sync: false, run }
+    let secondary = matches!(variant, "direct/into_inner" | "direct/finish+into_inner") && fmt.starts_with("ipc");
+    WCase { fmt, variant, random_sync: false, primary: !secondary, whole_writes: false, read_back: None, run }
+}
+
+fn flat_rows(d: &Data) -> Vec<String> {
+    d.rows().into_iter().flatten().collect()
 }
 
 type Never = std::convert::Infallible;
@@ -171,7 +182,8 @@ enum PqFin {
 fn pq_run(d: &Data, s: FaultSink, a: &Api, group_rows: usize, flush_sync: bool, fin: PqFin) {
     use parquet::arrow::ArrowWriter;
     use parquet::file::properties::WriterProperties;
-    let props = WriterProperties::builder().set_max_row_group_row_count(Some(group_rows)).build();
+    // the wide table is written plain (no dictionary) so that the writer's 8 KiB BufWriter spills
+    let props = WriterProperties::builder().set_max_row_group_row_count(Some(group_rows)).set_dictionary_enabled(group_rows < 1500).build();
     let Some(mut w) = a.call("new", || ArrowWriter::try_new(s.clone(), d.schema.clone(), Some(props))) else { return };
     for b in &d.batches {
         if a.call("write", || w.write(b)).is_none() {
@@ -211,9 +223,43 @@ fn pq_cases(d: &Data, wide: &Data, out: &mut Vec<WCase>) {
         out.push(case("parquet", variant, Box::new(move |s, a| pq_run(&dd, s, a, group, fs, fin))));
     }
     let dd = wide.clone();
-    out.push(case("parquet", "wide/close", Box::new(move |s, a| pq_run(&dd, s, a, 1 << 20, false, PqFin::Close))));
+    out.push(case("parquet", "wide/close", Box::new(move |s, a| pq_run(&dd, s, a, 1500, false, PqFin::Close))));
     let dd = wide.clone();
-    out.push(case("parquet", "wide/into_inner", Box::new(move |s, a| pq_run(&dd, s, a, 1 << 20, false, PqFin::IntoInner))));
+    out.push(case("parquet", "wide/into_inner", Box::new(move |s, a| pq_run(&dd, s, a, 1500, false, PqFin::IntoInner))));
+}
+
+fn pq_async_run(d: &Data, s: FaultSink, a: &Api, group_rows: usize, flush_each: bool, close: bool) {
+    use futures::executor::block_on;
+    use parquet::arrow::AsyncArrowWriter;
+    use parquet::file::properties::WriterProperties;
+    let props = WriterProperties::builder().set_max_row_group_row_count(Some(group_rows)).set_dictionary_enabled(group_rows < 1500).build();
+    let sink = crate::fault::FaultAsync(s.0.clone());
+    let Some(mut w) = a.call("new", || AsyncArrowWriter::try_new(sink, d.schema.clone(), Some(props))) else { return };
+    for b in &d.batches {
+        if a.call("write", || block_on(w.write(b))).is_none() {
+            break;
+        }
+        if flush_each && a.call("flush", || block_on(w.flush())).is_none() {
+            break;
+        }
+    }
+    if a.panicked() {
+        return;
+    }
+    if close {
+        a.call("close", || block_on(w.close()).map(|_| ()));
+    } else {
+        a.call("finish", || block_on(w.finish()).map(|_| ()));
+    }
+}
+
+fn pq_async_cases(d: &Data, wide: &Data, out: &mut Vec<WCase>) {
+    let dd = wide.clone();
+    out.push(WCase { whole_writes: true, ..case("pq_async", "wide/close", Box::new(move |s, a| pq_async_run(&dd, s, a, 1500, false, true))) });
+    for (variant, group, flush_each, close) in [("groups4/close", 4usize, false, true), ("flush_each/finish", 1024, true, false), ("close", 1024, false, true)] {
+        let dd = d.clone();
+        out.push(WCase { whole_writes: true, ..case("pq_async", variant, Box::new(move |s, a| pq_async_run(&dd, s, a, group, flush_each, close))) });
+    }
 }
 
 // ------------------------------------------------------------------- CSV
@@ -340,7 +386,6 @@ fn avro_cases(d: &Data, out: &mut Vec<WCase>) {
 }
 
 pub struct Inputs {
-    pub bin: Data,
     pub bin_dict: Data,
     pub wide: Data,
     pub avro: Data,
@@ -351,8 +396,23 @@ pub fn cases(inp: &Inputs) -> Vec<WCase> {
     let mut out = vec![];
     ipc_cases(&inp.bin_dict, &mut out);
     pq_cases(&inp.bin_dict, &inp.wide, &mut out);
+    pq_async_cases(&inp.bin_dict, &inp.wide, &mut out);
     csv_cases(&inp.text, &mut out);
     json_cases(&inp.text, &mut out);
     avro_cases(&inp.avro, &mut out);
+    // what was accepted from a session that ended with a successful terminating call is read back with the
+    // format's reader
+    for c in out.iter_mut() {
+        let (fmt, d) = match c.fmt {
+            "ipc_file" | "ipc_stream" => (c.fmt, &inp.bin_dict),
+            "parquet" | "pq_async" if c.variant.starts_with("wide") => ("parquet", &inp.wide),
+            "parquet" | "pq_async" => ("parquet", &inp.bin_dict),
+            "csv" => ("csv", &inp.text),
+            "json_lines" => ("json_lines", &inp.text),
+            "avro_ocf" => ("avro_ocf", &inp.avro),
+            _ => continue,
+        };
+        c.read_back = Some((fmt, flat_rows(d)));
+    }
     out
 }
